@@ -19,7 +19,7 @@
 (* code, which wrote in message order.                                        *)
 EXTENDS Orswot, TLC, Json
 
-CONSTANTS Times, MaxReqs, SortBulk, WithCrash, EmitEdges
+CONSTANTS Times, MaxReqs, SortBulk, WithCrash, WithBulk, EmitEdges
 
 VARIABLES st, store,
           reg,     \* stamp -> "none" | "ins" | "del": what operation a stamp belongs to (stamps identify operations)
@@ -163,8 +163,8 @@ Next ==
   /\ reqs < MaxReqs
   /\ reqs' = reqs + 1
   /\ \/ \E d \in BOOLEAN, src \in Sources, k \in Keys, ts \in Stamps, o \in {"ok", "fail"} : Single(d, src, k, ts, o)
-     \/ \E d \in BOOLEAN, src \in Sources, items \in BulkItems : Bulk(d, src, items, "ok", {})
-     \/ \E d \in BOOLEAN, src \in Sources, items \in BulkItems, W \in SUBSET Keys : Bulk(d, src, items, "fail", W)
+     \/ WithBulk /\ \E d \in BOOLEAN, src \in Sources, items \in BulkItems : Bulk(d, src, items, "ok", {})
+     \/ WithBulk /\ \E d \in BOOLEAN, src \in Sources, items \in BulkItems, W \in SUBSET Keys : Bulk(d, src, items, "fail", W)
      \/ DoPurge("ok", {})
      \/ \E W \in SUBSET Keys : DoPurge("fail", W)
      \/ CrashRestart
